@@ -242,6 +242,26 @@ theorem all_completed_before_close_return (cfg : Cfg) (s s' : State) (hr : Reach
     | false => rfl
     | true => exact absurd hg (h1 c hc)
 
+/-- **writer_resources_released** — in every reachable state in which Close has returned (at that moment and ever
+after, whatever calls still arrive) the WaitGroup is 0: no call is between enter and leave, no sender goroutine and no
+awaitBatch goroutine of the model is alive — no goroutine started by the Writer outlives its Close. -/
+theorem writer_resources_released (cfg : Cfg) (hfix : cfg.fixed = true) (s : State) (hr : Reachable cfg s)
+    (h3 : s.close = 3) :
+    s.wg = 0 ∧ (∀ p ∈ s.writers, p.live = false) ∧ s.awaiters = [] ∧ (∀ c ∈ s.calls, c.holdsGroup = false) := by
+  have h0 := reachable_returned_quiescent cfg hfix s hr h3
+  simp only [State.wg] at h0
+  have h1 : s.calls.countP Call.holdsGroup = 0 := by omega
+  have h2 : s.writers.countP PW.live = 0 := by omega
+  have h4 : s.awaiters.length = 0 := by omega
+  rw [List.countP_eq_zero] at h1 h2
+  refine ⟨by simp only [State.wg]; omega, ?_, List.length_eq_zero_iff.mp h4, ?_⟩
+  · intro p hp; cases hl : p.live with
+    | false => rfl
+    | true => exact absurd hl (h2 p hp)
+  · intro c hc; cases hg : c.holdsGroup with
+    | false => rfl
+    | true => exact absurd hg (h1 c hc)
+
 example : ∃ s, Reachable ⟨3, 2, true, false⟩ s ∧ s.close = 2 ∧ s.wg ≠ 0 :=
   ⟨_, ⟨[.callBegin 1 [(10, 0)] false, .enter 1, .batch 1, .closeBegin, .closeMark], rfl⟩, by decide, by decide⟩
 
